@@ -270,7 +270,18 @@ func (f *FibStrategyHashTable) FindStrategyEnc(name enc.Name) enc.Name {
 func (f *FibStrategyHashTable) InsertNextHopEnc(name enc.Name, nexthop uint64, cost uint64) {
 	f.fibStrategyRWMutex.Lock()
 	defer f.fibStrategyRWMutex.Unlock()
+	f.insertNextHop(name, nexthop, cost)
+}
 
+// batchUpdate applies several nexthop updates under one write lock.
+func (f *FibStrategyHashTable) batchUpdate(fn func(ops fibBatchOps)) {
+	f.fibStrategyRWMutex.Lock()
+	defer f.fibStrategyRWMutex.Unlock()
+	fn(f)
+}
+
+// insertNextHop is InsertNextHopEnc without locking.
+func (f *FibStrategyHashTable) insertNextHop(name enc.Name, nexthop uint64, cost uint64) {
 	realEntry := f.insertEntryEnc(name)
 
 	for i, existingNextHop := range realEntry.nexthops {
@@ -294,7 +305,11 @@ func (f *FibStrategyHashTable) InsertNextHopEnc(name enc.Name, nexthop uint64, c
 func (f *FibStrategyHashTable) ClearNextHopsEnc(name enc.Name) {
 	f.fibStrategyRWMutex.Lock()
 	defer f.fibStrategyRWMutex.Unlock()
+	f.clearNextHops(name)
+}
 
+// clearNextHops is ClearNextHopsEnc without locking.
+func (f *FibStrategyHashTable) clearNextHops(name enc.Name) {
 	entry, ok := f.realTable[name.Hash()]
 	if ok {
 		entry.nexthops = make([]*FibNextHopEntry, 0)
